@@ -66,4 +66,8 @@ package cred
 //@ func (*ManagedServer).saveToFile
 //@   requires !isnil(s)
 //@   callsite WriteFile: arg0 == s.path
+// Crash safety (property C20): os.WriteFile truncates its destination and then writes, so at some instant
+// the destination holds a prefix of the new content. The live store file must therefore never be the
+// destination of such a write; it may only be replaced as a whole.
+//@   callsite WriteFile: arg0 != s.path
 //@   ensures isnil(result) ==> s.cachedContent == string(b)
